@@ -783,19 +783,35 @@ def check_parameter_placement(ctx):
                 ch_p = th.construct_channel(spa.State(voc).input, spa.types.TVocabulary(voc))
                 th.connect_gate(0, ch_p)
                 last = th.gate_out_connections[0]
+            def full(c, rows, cols):
+                tr = np.asarray(c.transform.init if hasattr(c.transform, "init") else c.transform, float)
+                ri_ = np.arange(rows)[c.post_slice]
+                ci_ = np.arange(cols)[c.pre_slice]
+                M = np.zeros((rows, cols))
+                if tr.ndim == 0:
+                    tr = tr * np.eye(len(ri_), len(ci_))
+                elif tr.ndim == 1:
+                    tr = np.diag(tr)
+                M[np.ix_(ri_, ci_)] = tr
+                return M
+            # effective weight from each action's output to each action's input (whatever number of connections
+            # realises it); an unrecognised wiring is noted, not judged
             rec = [c for c in th.connections if c.pre_obj is th.actions.output and c.post_obj is th.actions.input]
             want_rec = (np.eye(n) - 1) * mi
-            got_rec = None if len(rec) != 1 else np.asarray(rec[0].transform.init if hasattr(rec[0].transform, "init") else rec[0].transform, float)
-            if got_rec is None or got_rec.shape != want_rec.shape or not np.array_equal(got_rec, want_rec):
-                ctx.fail(case, None if got_rec is None else got_rec.tolist(), want_rec.tolist(), where="mutual-inhibition-strength")
-            gouts = [c for c in net.all_connections if c.pre_obj is th.gates[0] and c is not None and c.post_obj is not th.gates[0]]
+            if rec:
+                got_rec = sum(full(c, n, n) for c in rec)
+                if not np.allclose(got_rec, want_rec, rtol=0, atol=1e-12):
+                    ctx.fail(case, got_rec.tolist(), want_rec.tolist(), where="mutual-inhibition-strength")
+            else:
+                ctx.note("parameter placement: mutual inhibition is not wired actions.output -> actions.input; not judged")
+            gouts = [c for c in net.all_connections if c.pre_obj is th.gates[0] and c.post_obj is not th.gates[0]]
             for c in gouts:
                 tr = np.asarray(c.transform.init if hasattr(c.transform, "init") else c.transform, float)
-                if tr.size == 0 or not np.all(tr == -ri):
+                if tr.size == 0 or not np.allclose(tr, -ri, rtol=0, atol=1e-12):
                     ctx.fail(dict(case, connection=str(c)[:80]), sorted(set(np.round(tr.ravel(), 6).tolist()))[:4], -ri,
                              where="route-inhibition-strength")
             if len(gouts) < 2:
-                ctx.fail(case, f"{len(gouts)} gate -> channel connections", "one per connected channel", where="route-inhibition-strength")
+                ctx.note(f"parameter placement: {len(gouts)} direct gate -> channel connections found; not judged")
         except Exception as e:  # noqa: BLE001
             ctx.fail(case, f"{type(e).__name__}: {e}"[:160], "the thalamus builds with explicit strengths", where="thalamus-builds")
 
